@@ -398,9 +398,11 @@ pub fn gen_al(ch: &mut Choices, max_rules: usize) -> AL {
     al.flags.allow_wholeline_comments = pick_flag(ch);
     al.flags.case_insensitive = pick_flag(ch);
     let ns = ch.weighted(&[3, 3, 2, 1]);
-    let names = ["S1", "x2", "St.a_3", "Q"];
-    for i in 0..ns {
-        al.states.push((names[i].to_string(), ch.chance(1, 2)));
+    // names that overlap with each other and with the directive words (%s, %x, %start, ...)
+    let mut names = vec!["S1", "x2", "St.a_3", "Q", "s", "x", "S", "X", "t", "art", "tart", "a", "state", "xx", "e", "xc"];
+    for _ in 0..ns {
+        let n = names.remove(ch.pick(names.len()));
+        al.states.push((n.to_string(), ch.chance(1, 2)));
     }
     let nr = ch.range(1, max_rules);
     // rules come in groups sharing a prefix so that ties and longest-match decisions occur
@@ -477,7 +479,13 @@ pub struct RenderOpts {
     pub tab_sep: Vec<bool>,
     pub trailing_space: Vec<bool>,
     pub states_one_line: bool,
+    /// spelling of the %s/%x directive words (index into DIRECTIVES_*, rotated per line)
+    #[serde(default)]
+    pub directive_variant: usize,
 }
+
+pub const DIRECTIVES_INCL: &[&str] = &["%s", "%S", "%start", "%state", "%Sx9", "%s"];
+pub const DIRECTIVES_EXCL: &[&str] = &["%x", "%X", "%xclusive", "%xstart", "%Xs", "%x"];
 
 impl RenderOpts {
     pub fn plain(n: usize) -> Self {
@@ -491,6 +499,7 @@ impl RenderOpts {
             tab_sep: vec![false; n],
             trailing_space: vec![false; n],
             states_one_line: true,
+            directive_variant: 0,
         }
     }
     pub fn generate(ch: &mut Choices, n: usize, header: bool) -> Self {
@@ -504,6 +513,7 @@ impl RenderOpts {
             tab_sep: (0..n).map(|_| ch.chance(1, 4)).collect(),
             trailing_space: (0..n).map(|_| ch.chance(1, 5)).collect(),
             states_one_line: ch.chance(1, 2),
+            directive_variant: ch.pick(6),
         }
     }
 }
@@ -547,7 +557,8 @@ pub fn render(al: &AL, o: &RenderOpts) -> (String, Layout) {
         let mut i = 0;
         while i < al.states.len() {
             let excl = al.states[i].1;
-            s.push_str(if excl { "%x" } else { "%s" });
+            let dv = (o.directive_variant + i) % 6;
+            s.push_str(if excl { DIRECTIVES_EXCL[dv] } else { DIRECTIVES_INCL[dv] });
             while i < al.states.len() && al.states[i].1 == excl {
                 s.push(' ');
                 let st = s.len();
@@ -558,8 +569,9 @@ pub fn render(al: &AL, o: &RenderOpts) -> (String, Layout) {
             s.push('\n');
         }
     } else {
-        for (name, excl) in &al.states {
-            s.push_str(if *excl { "%x" } else { "%S" });
+        for (k, (name, excl)) in al.states.iter().enumerate() {
+            let dv = (o.directive_variant + 1 + k) % 6;
+            s.push_str(if *excl { DIRECTIVES_EXCL[dv] } else { DIRECTIVES_INCL[dv] });
             s.push_str("\t ");
             let st = s.len();
             s.push_str(name);
